@@ -6,7 +6,8 @@
 //!   2 b                    bool
 //!   3 w z                  integer z stored as w: 0 i64, 1 u64, 2 i128, 3 u128
 //!   4 bits                 f64 by bit pattern
-//!   5 f n c1..cn           string (code points); f: 0 plain (small or heap by length), 1 safe
+//!   5 f n c1..cn           string (code points); f: 0 plain via &str (inline SmallStr up to 22 bytes, else heap), 1 safe (heap),
+//!                          2 heap Arc<str> whatever the length, 3 produced at run time (`x ~ ''`)
 //!   6 n b1..bn             bytes
 //!   7 n v1..vn             list
 //!   8 n v1..vn             tuple
@@ -72,10 +73,15 @@ fn value(env: &Environment, c: &mut Cur) -> Value {
         5 => {
             let f = c.i64();
             let s = c.str();
-            if f == 1 {
-                Value::from_safe_string(s)
-            } else {
-                Value::from(s)
+            match f {
+                1 => Value::from_safe_string(s),
+                2 => Value::from(Arc::<str>::from(s)),
+                3 => {
+                    // produced at run time by the engine itself (string concatenation)
+                    let ctx: Value = [("x", Value::from(s))].into_iter().collect::<std::collections::BTreeMap<&str, Value>>().into();
+                    env.compile_expression("x ~ ''").and_then(|e| e.eval(ctx)).unwrap_or(Value::UNDEFINED)
+                }
+                _ => Value::from(s),
             }
         }
         6 => {
